@@ -2,6 +2,14 @@
 // signature bind header and body: exhaustive bounded enumeration of base blocks
 // formatted by the real Ledger and of every single mutation of header, body and
 // signature, judged at Ledger.VerifyBlock (and single's CheckMinerMatch).
+//
+// Two further dimensions: (1) coordinated mutations of the body and of the
+// unhashed helper field MerkleTree that travels with the block (every body
+// mutation x every treatment of the shipped tree, see walker.trees): a verifier
+// may not trust the shipped tree in place of the hashed MerkleRoot; (2) the PoW
+// consensus seam (pow.go): base blocks really mined by the PoW plugin over the
+// real ledger, the same mutants judged at the PoW CheckMinerMatch, with the
+// nonce searched again where the edit would otherwise break the proof of work.
 package c08
 
 import (
@@ -43,9 +51,13 @@ type BaseSpec struct {
 	Failed     int    `json:"failed_txs"`  // entries of the failed-tx map
 	TargetBits int32  `json:"target_bits"` // PoW bits
 	Format     string `json:"format,omitempty"`
+	Seam       string `json:"seam,omitempty"` // "": judged at Ledger.VerifyBlock + single; "pow": mined by the PoW plugin, judged at its CheckMinerMatch
 }
 
 func (s BaseSpec) String() string {
+	if s.Seam != "" {
+		return fmt.Sprintf("n=%d justify=%d failed=%d bits=%#x seam=%s", s.N, s.Justify, s.Failed, uint32(s.TargetBits), s.Seam)
+	}
 	return fmt.Sprintf("n=%d justify=%d failed=%d bits=%d", s.N, s.Justify, s.Failed, s.TargetBits)
 }
 
@@ -350,20 +362,7 @@ type verdict struct {
 
 // judge applies one mutant to a copy of base and evaluates the oracle.
 func (f *fixture) judge(baseBlk, baseNorm *pb.InternalBlock, m *mutant, seen map[[32]byte]bool, confirmed *world.World) verdict {
-	b := world.CloneBlock(baseBlk)
-	m.apply(b)
-	switch m.fix {
-	case fixMerkle:
-		recomputeMerkle(b)
-	case fixMerkleID:
-		recomputeMerkle(b)
-		recomputeID(b)
-	case fixID:
-		recomputeID(b)
-	}
-	if m.post != nil {
-		m.post(b)
-	}
+	b := materialise(baseBlk, m, nil)
 	norm := normalise(world.CloneBlock(b))
 	if proto.Equal(norm, baseNorm) {
 		return verdict{noop: true}
@@ -375,7 +374,10 @@ func (f *fixture) judge(baseBlk, baseNorm *pb.InternalBlock, m *mutant, seen map
 		}
 		seen[h] = true
 	}
-	vo, so := f.verifyP(b), f.checkSingleP(b)
+	vo, so := f.verifyP(b), outcome{}
+	if !m.ledgerOnly {
+		so = f.checkSingleP(b)
+	}
 	v := verdict{verifyOK: vo.ok, singleOK: so.ok, verifyPanic: vo.panic, singlePanic: so.panic}
 	vBad, sBad := false, false
 	switch m.expect {
@@ -525,7 +527,9 @@ func run(tier core.Tier) *core.Report {
 		core.HarnessError("C08 fixture: %v", err)
 	}
 	all := specs(tier)
+	powAll := powSpecs(tier)
 	total := newStats()
+	ptotal := newPowStats()
 	best := map[string]found{}
 	var mu sync.Mutex
 	offer := func(c Case, v core.Violation) {
@@ -561,8 +565,22 @@ func run(tier core.Tier) *core.Report {
 		go func() {
 			defer wg.Done()
 			loc := newStats()
+			ploc := newPowStats()
+			seams := map[int32]*powSeam{}
 			lOK, lEmpty, lWire := 0, 0, 0
 			for s := range jobs {
+				if s.Seam == seamPow {
+					p := seams[s.TargetBits]
+					if p == nil {
+						var err error
+						if p, err = f.newPowSeam(s.TargetBits); err != nil {
+							core.HarnessError("C08: %v", err)
+						}
+						seams[s.TargetBits] = p
+					}
+					f.powJob(p, s, tier, loc, ploc, offer)
+					continue
+				}
 				blk, err := f.build(s)
 				if err != nil {
 					core.HarnessError("C08 format %v: %v", s, err)
@@ -601,7 +619,7 @@ func run(tier core.Tier) *core.Report {
 						loc.viol["c08.confirmed_block_refused"]++
 					}
 				}
-				for _, m := range f.mutants(blk, s, tier) {
+				for _, m := range f.mutants(blk, s, tier, "") {
 					v := f.judge(blk, baseNorm, m, seen, twin)
 					if v.noop {
 						loc.noops++
@@ -618,6 +636,9 @@ func run(tier core.Tier) *core.Report {
 					}
 					loc.mutants++
 					loc.evals += 2
+					if m.ledgerOnly {
+						loc.evals--
+					}
 					c := loc.perClass[m.class]
 					if v.verifyOK {
 						loc.verifyAcc++
@@ -630,9 +651,11 @@ func run(tier core.Tier) *core.Report {
 						c[1]++
 					}
 					loc.perClass[m.class] = c
-					if v.singleOK {
+					switch {
+					case m.ledgerOnly:
+					case v.singleOK:
 						loc.singleAcc++
-					} else {
+					default:
 						loc.singleRef++
 					}
 					if v.verifyPanic != "" {
@@ -667,15 +690,19 @@ func run(tier core.Tier) *core.Report {
 					twin.Drop()
 				}
 			}
+			for _, p := range seams {
+				p.stop()
+			}
 			mu.Lock()
 			total.merge(loc)
+			ptotal.merge(ploc)
 			baseOK += lOK
 			baseEmptyRefused += lEmpty
 			baseWireOK += lWire
 			mu.Unlock()
 		}()
 	}
-	order := append([]BaseSpec{}, all...)
+	order := append(append([]BaseSpec{}, all...), powAll...)
 	sort.SliceStable(order, func(i, j int) bool { return order[i].N+4*order[i].Justify > order[j].N+4*order[j].Justify }) // costly bases first
 	for _, s := range order {
 		if rep.Expired() {
@@ -706,12 +733,47 @@ func run(tier core.Tier) *core.Report {
 	rep.Set("base_blocks", len(all))
 	rep.Set("base_blocks_nonempty_verified", fmt.Sprintf("%d of %d (after wire round trip: %d)", baseOK, nonEmpty, baseWireOK))
 	rep.Set("base_blocks_empty", fmt.Sprintf("%d formatted with 0 transactions, %d refused by VerifyBlock (VerifyMerkle cannot make a tree of nothing; a produced block always carries the award: recorded, not alarmed)", len(all)-nonEmpty, baseEmptyRefused))
-	rep.Set("evaluations", total.evals)
-	rep.Set("distinct_nontrivial", total.mutants)
-	rep.Set("rule", "cases = base blocks {n transactions} x {justify none/0/1/3 sigs} x {failed-tx entries} x {target bits} formatted by Ledger.FormatMinerBlock (+ FormatBlock), times every single mutation: reflection walk over every InternalBlock / QuorumCert / SignInfo field (ints +1 -1 =0 neg bit20; bytes and strings bit flips, append, drop first/last, empty; structure drop/dup/swap), failed-tx map edits, field-boundary shifts between adjacent variable-length hashed fields, every tx dropped / swapped with every other / duplicated at every position / replaced / foreign tx at every position / txid altered / tail duplicated, merkle tree edits, every signature bit flipped, re-signing by another key; body mutants raw, with merkle+count recomputed, and with the id recomputed too; header mutants raw and with the id recomputed; a mutant is non-trivial when it differs from its base in content (no-op edits are skipped and counted apart) and distinct when no other edit of the same base produced the same block (duplicates skipped and counted apart)")
+	rep.Set("evaluations", total.evals+ptotal.evals)
+	rep.Set("distinct_nontrivial", total.mutants+ptotal.mutants)
+	rep.Set("rule", "cases = base blocks {n transactions} x {justify none/0/1/3 sigs} x {failed-tx entries} x {target bits} formatted by Ledger.FormatMinerBlock (+ FormatBlock), times every single mutation: reflection walk over every InternalBlock / QuorumCert / SignInfo field (ints +1 -1 =0 neg bit20; bytes and strings bit flips, append, drop first/last, empty; structure drop/dup/swap), failed-tx map edits, field-boundary shifts between adjacent variable-length hashed fields, every tx dropped / swapped with every other / duplicated at every position / replaced / foreign tx at every position / txid altered / tail duplicated, merkle tree edits, every signature bit flipped, the proposer's own signature over other content (parent id, id with a bit flipped, another message), re-signing by another key; body mutants raw, with merkle+count recomputed, and with the id recomputed too; header mutants raw and with the id recomputed; "+
+		"COORDINATED body + MerkleTree mutants: every body mutation (header untouched) x every treatment of the unhashed MerkleTree field shipped with the block {untouched (= raw), dropped, rebuilt for the new body, the k lowest levels patched to the new body with the honest inner nodes and root kept for k = 1 (leaf slots only) .. depth, right size filled with the header root}, all to be refused by VerifyBlock; "+
+		"PoW seam: the same base shapes with easy PoW target bits, formatted by the ledger and really mined by the PoW plugin's CalculateBlock over the real ledger, every header / body / signature / signer mutant (raw, and MINED again = nonce searched until the recomputed id meets the target, so that only the signature is left to tell; this replaces id-recomputed-nonce-kept, whose proof holds or not by chance) judged at the PoW CheckMinerMatch; a mutant is non-trivial when it differs from its base in content (no-op edits are skipped and counted apart) and distinct when no other edit of the same base produced the same block (duplicates skipped and counted apart)")
 	rep.Set("after_base_confirmed", fmt.Sprintf("%d base blocks confirmed on a second ledger of the same genesis; %d mutants offered to it as well (%d accepted there); oracle: none accepted there that the fresh ledger refuses", total.twins, total.twinEvals, total.twinAcc))
-	rep.Set("noop_mutants_skipped", total.noops)
-	rep.Set("duplicate_mutants_skipped", total.dups)
+	rep.Set("noop_mutants_skipped", total.noops+ptotal.noops)
+	rep.Set("duplicate_mutants_skipped", total.dups+ptotal.dups)
+	tc := [2]int{}
+	tcls := map[string]string{}
+	for k, v := range total.perClass {
+		if strings.HasPrefix(k, "body_tree:") {
+			tc[0] += v[0]
+			tc[1] += v[1]
+			tcls[strings.TrimPrefix(k, "body_tree:")] = fmt.Sprintf("accepted=%d refused=%d", v[0], v[1])
+		}
+	}
+	rep.Set("body_with_doctored_merkle_tree", map[string]interface{}{
+		"oracle":        "VerifyBlock refuses every body mutation whatever the MerkleTree field says (the field is not covered by the id; only the hashed MerkleRoot binds the body)",
+		"mutants":       tc[0] + tc[1],
+		"accepted":      tc[0],
+		"refused":       tc[1],
+		"per_treatment": tcls,
+	})
+	ppc := map[string]string{}
+	for k, v := range ptotal.perClass {
+		ppc[k] = fmt.Sprintf("accepted=%d refused=%d", v[0], v[1])
+	}
+	rep.Set("pow_seam", map[string]interface{}{
+		"base_blocks":                        fmt.Sprintf("%d specs, %d formatted by the ledger + mined by pow.CalculateBlock, %d of them accepted by VerifyBlock (also after wire round trip) and by pow.CheckMinerMatch with the id meeting the reference target", len(powAll), ptotal.bases, ptotal.basesOK),
+		"mutants":                            ptotal.mutants,
+		"noop_mutants_skipped":               ptotal.noops,
+		"duplicate_mutants_skipped":          ptotal.dups,
+		"check_miner_match_accepted":         ptotal.acc,
+		"check_miner_match_refused":          ptotal.ref,
+		"judged_must_refuse":                 fmt.Sprintf("%d mutants the PoW seam owes a refusal (hashed header field / merkle root+count / id / signature / signer), %d refused", ptotal.judged, ptotal.judgedRef),
+		"mined_again_variants":               fmt.Sprintf("%d offered, %d of them with an id that is the header hash and meets the target (reference): the proof of work is no reason to refuse those", ptotal.minedVariants, ptotal.proofedOffered),
+		"id_kept_wellformed_wrong_signature": fmt.Sprintf("%d signer / other-content mutants whose signature parses but is not one of the id under the stated key (bit flips not counted: random)", ptotal.sigWellFormedWrong),
+		"per_class":                          ppc,
+		"outside_statement_accepted":         ptotal.freeAccepted,
+	})
 	rep.Set("verify_block_accepted", total.verifyAcc)
 	rep.Set("verify_block_refused", total.verifyRef)
 	rep.Set("single_check_miner_match_accepted", total.singleAcc)
@@ -739,7 +801,8 @@ func run(tier core.Tier) *core.Report {
 		rep.Sample(samples[k])
 	}
 	rep.Assume("a transaction is identified by its Txid here; the binding of a transaction's content to its Txid is C07")
-	rep.Assume("fields outside the statement (not hashed, not body): Height, InTrunk, NextHash, MerkleTree (VerifyBlock recomputes the tree from the transactions and compares the root only), keys of FailedTxs (and entries with an empty message); their mutants are evaluated and counted (outside_statement_accepted), never alarmed")
+	rep.Assume("fields outside the statement (not hashed, not body): Height, InTrunk, NextHash, MerkleTree, keys of FailedTxs (and entries with an empty message); their mutants ALONE are evaluated and counted (outside_statement_accepted), never alarmed. MerkleTree edited TOGETHER with the body is inside the statement: the body must be under the hashed MerkleRoot whatever the shipped tree says")
+	rep.Assume("PoW seam: the plugin is built by consensus.NewPluginConsensus over the real ledger (tip = genesis, adjust gap 2, so the default target is prescribed for height 1); PoW CheckMinerMatch is not responsible for the body (its comment delegates to VerifyMerkle) nor, the id pre-image being unchanged, for field-boundary shifts; a well-formed block of another proposer (re-signed, Pubkey+Proposer replaced, mined again) is a valid PoW block: recorded, not alarmed. Whether the target bits are the prescribed ones is C16")
 	rep.Assume("single.CheckMinerMatch is not responsible for the body (its comment delegates to VerifyMerkle) and rewrites Blockid with the recomputed id before comparing: body-only and Blockid-only mutants are judged at VerifyBlock only")
 	rep.Assume("a block re-signed by another key with Pubkey and Proposer replaced and the id recomputed is a well-formed block of that other proposer: VerifyBlock may accept it, the consensus (single) must refuse it")
 	npanic := 0
@@ -748,6 +811,8 @@ func run(tier core.Tier) *core.Report {
 	}
 	fmt.Printf("C08 %s: base blocks=%d (non-empty verified %d/%d, empty refused %d); mutants=%d (no-ops skipped %d); VerifyBlock accepted=%d refused=%d; single accepted=%d refused=%d; panics inside xupercore (counted as refusals)=%d\n",
 		tier, len(all), baseOK, nonEmpty, baseEmptyRefused, total.mutants, total.noops, total.verifyAcc, total.verifyRef, total.singleAcc, total.singleRef, npanic)
+	fmt.Printf("C08 %s: body x MerkleTree treatments=%d (accepted %d); PoW seam: mined base blocks=%d/%d, mutants=%d, CheckMinerMatch accepted=%d refused=%d (owed a refusal %d, refused %d)\n",
+		tier, tc[0]+tc[1], tc[0], ptotal.basesOK, len(powAll), ptotal.mutants, ptotal.acc, ptotal.ref, ptotal.judged, ptotal.judgedRef)
 	return rep
 }
 
@@ -765,6 +830,12 @@ func replay(raw json.RawMessage) (bool, string, error) {
 	if c.Base.N < 0 || c.Base.N > 20 || c.Base.Justify > 5 || c.Base.Failed > 4 {
 		return false, "", fmt.Errorf("base out of range")
 	}
+	if c.Base.Seam == seamPow {
+		return f.replayPow(c)
+	}
+	if c.Base.Seam != "" {
+		return false, "", fmt.Errorf("unknown seam %q", c.Base.Seam)
+	}
 	blk, err := f.build(c.Base)
 	if err != nil {
 		return false, "", err
@@ -781,7 +852,7 @@ func replay(raw json.RawMessage) (bool, string, error) {
 			want = fmt.Sprintf("sig|flip:%d", k%(8*len(blk.Sign)))
 		}
 	}
-	for _, m := range f.mutants(blk, c.Base, core.Thorough) {
+	for _, m := range f.mutants(blk, c.Base, core.Thorough, "") {
 		if m.id != want {
 			continue
 		}
